@@ -94,3 +94,26 @@ Proof.
   f_equal. rewrite of_N_mul64. f_equal. f_equal.
   rewrite u64_id; [lia|]. unfold nu64, in_u64, Base.two64, GoInt.two64 in *. lia.
 Qed.
+
+(* ---------------------------------------------------------------------------------------- *)
+(* C09: the score of a bid under its builder's configuration (setBuilderBid)                  *)
+From Verif Require Model.C09_Auction.
+
+Lemma tie_score (cfgs : C09_Auction.bconfs) (b : C09_Auction.bid) :
+  let c := C09_Auction.conf_of cfgs b in
+  C09_Auction.score cfgs b =
+  builderbid_score (Z.of_N (C09_Auction.b_value b))
+                   (match C09_Auction.bc_offset c with Some _ => true | None => false end)
+                   (match C09_Auction.bc_offset c with Some o => o | None => 0 end)
+                   (match C09_Auction.bc_factor c with Some _ => true | None => false end)
+                   (match C09_Auction.bc_factor c with Some f => f | None => 0 end).
+Proof.
+  cbv zeta. unfold C09_Auction.score, builderbid_score.
+  destruct (C09_Auction.bc_offset (C09_Auction.conf_of cfgs b)) as [o|];
+  destruct (C09_Auction.bc_factor (C09_Auction.conf_of cfgs b)) as [f|];
+  try reflexivity; rewrite ediv_pos by lia; reflexivity.
+Qed.
+
+(* the deadline strategy has its own copy of the computation: same transcription *)
+Lemma tie_score_deadline : forall v ho o hf f, builderbid_deadline_score v ho o hf f = builderbid_score v ho o hf f.
+Proof. reflexivity. Qed.
